@@ -14,16 +14,16 @@ Obligations checked on every run (see design/C04.md):
 import json, os, re, subprocess, sys, time, glob
 from vlib import *
 
-MODELLED = ["plain", "nullproto", "arrow", "bound", "class", "strobj", "sargs"]
+MODELLED = ["plain", "nullproto", "arrow", "bound", "class", "strobj", "sargs", "args", "u8"]
 ARRAYS = ["arr", "sparr"]                       # dense [101,102,103] / sparse (a[5000]) arrays: monitored (modelled by C07)
 TEMPLATED = ["fproto", "aproto", "sproto", "dproto", "taproto", "mapproto", "setproto", "promproto", "symproto", "regproto",
              "json", "math", "global"]           # lazily-templated built-in prototypes / namespace objects (fresh runtime per case)
-MONITORED = ARRAYS + TEMPLATED + ["func", "args", "u8", "gomap", "goslice", "gostruct", "dyn", "dynarr"]
+MONITORED = ARRAYS + TEMPLATED + ["func", "gomap", "goslice", "gostruct", "dyn", "dynarr"]
 # kinds for the key-kind metamorphic check (no model of the kind needed): every kind with hand-written Str/Idx method copies
 META_KINDS = ["goslice", "gomap", "gostruct", "dyn", "dynarr", "u8", "args", "sargs", "strobj", "arr", "sparr", "func", "plain"]
 GENERAL_MONITORED = [k for k in MONITORED if k not in TEMPLATED or k in ("math", "global")]
 WRAPPERS = {"gomap", "goslice", "gostruct", "dyn", "dynarr"}          # documented non-ordinary variants: key order not checked
-DEFAULT_PROTO = {"plain": "O", "nullproto": "null", "arrow": "F", "bound": "F", "class": "F", "strobj": "?", "sargs": "O"}
+DEFAULT_PROTO = {"plain": "O", "nullproto": "null", "arrow": "F", "bound": "F", "class": "F", "strobj": "?", "sargs": "O", "args": "O", "u8": "?"}
 
 # well-known symbols are SYM[3..] of the harness prelude
 WK = {"iterator": "y3", "hasInstance": "y4", "toStringTag": "y5", "toPrimitive": "y6", "unscopables": "y7", "match": "y9",
@@ -709,8 +709,26 @@ def shrink_case(ctx, h, model, case):
     return {"objs": case["objs"], "ops": small, "monitored": False}
 
 
-def seq_signature(case, lines=None, dd=None):
-    """class of a (minimised) diverging sequence: its op/entry-point shape.  No divergence is attributed to a known finding."""
+SIG_ARGS_ITER = "argumentsObject:iterator-hides-mapped-slot-flags"
+SIG_TA_DELETE = "typedArray:delete-formats-error-message-eagerly"
+
+
+def seq_signature(case, lines=None, dd=None, a=None, b=None):
+    """class of a (minimised) diverging sequence: its op/entry-point shape.  One known defect is recognised narrowly: a case
+    with a mapped arguments object whose first diverging answer differs from the model ONLY in isFrozen / isSealed / for-in
+    (the consumers of argumentsPropIter, which shows a mapped slot as a plain value)."""
+    if a is not None and b is not None and dd is not None and dd < len(a) and dd < len(b) \
+            and any(k == "args" for k, _ in case["objs"]):
+        def blank(l):
+            return re.sub(r"(fz|sl)=[tf]|forin=\[[^\]]*\]", "_", strip_impl(l)[0])
+        if blank(a[dd]) == blank(strip_model(b[dd])):
+            return SIG_ARGS_ITER
+    if a is not None and b is not None and lines is not None and dd is not None and dd < len(a) and dd < len(b) and dd < len(lines):
+        op = lines[dd].split()
+        if op[0] == "del" and op[1] in ("S", "R") and op[2][1:].isdigit() and int(op[2][1:]) < len(case["objs"]) \
+                and case["objs"][int(op[2][1:])][0] == "u8" and strip_impl(a[dd])[0].split(" ")[0] == "throw" \
+                and strip_model(b[dd]).split(" ")[0] == "f":
+            return SIG_TA_DELETE
     return "seq:" + "-".join(o[0] + (o[1] if o[0] not in ("frz", "seal") else "") for o in case["ops"])[:80]
 
 
@@ -741,7 +759,7 @@ def main(ctx):
     if not ok:
         # a broken theorem / tie must not take the model driver away from the search
         sh(["lake", "build", "model_c04"], cwd=LEAN, timeout=3000)
-    names = ctx.audit("GojaModel.C04.Props", expect_min=25)
+    names = ctx.audit("GojaModel.C04.Props", expect_min=37)
     if have_tie and ok:
         ctx.audit("GojaModel.C04.Tie", expect_min=1)
     if ctx.tier == "thorough" and ok:
@@ -964,7 +982,7 @@ def main(ctx):
     sig_count = {}
     for n, (c, impl, mdl, d) in enumerate(diverging):
         lines = case_lines(c)
-        sig0 = seq_signature(c, lines, d)
+        sig0 = seq_signature(c, lines, d, impl, mdl)
         sig_count[sig0 if not sig0.startswith("seq:") else "seq:*"] = sig_count.get(sig0 if not sig0.startswith("seq:") else "seq:*", 0) + 1
         if ctx.known_signature(sig0) is not None and any(h["signature"] == sig0 for h in ctx.known_hits):
             continue                                    # same known class already reported with a concrete replay
@@ -980,7 +998,7 @@ def main(ctx):
         if dd is None:
             # did not reproduce in isolation: report the unshrunk case
             small, slines, a, b, dd = c, lines, impl, mdl, d
-        sig = seq_signature(small, slines, dd)
+        sig = seq_signature(small, slines, dd, a, b)
         st = ctx.violation(sig, "implementation diverges from the spec model at op %s: impl=%s model=%s"
                            % (slines[dd] if dd < len(slines) else "?",
                               (strip_impl(a[dd])[0][:160] if dd < len(a) else "?"),
